@@ -13,6 +13,18 @@ CLAIMED = {
         "technique": "Coq proof (induction + reflection over finite domains) + differential correspondence of the extracted model against the C code",
         "design": "DESIGN.md section 7 C19",
     },
+    "C04": {
+        "text": "Coq theorems about a model of formats/binary.c over both file abstractions: initialisation classifies every byte string exactly as the grammar (magic, version, feature byte, checksum, first header), the blocks walked are exactly the records laid end to end (with the one allowed route difference on a body cut short), lookup = first record of the type / error / not-found from any cursor position, body reads return exactly the body or SB_EREAD, and records(encode(blocks)) = blocks; tied to the code by differential runs on generated files, every header truncation, both routes.",
+        "note": "Trusted: Coq kernel, hand-written model of binary.c (read(2)/lseek(2) contract for regular files assumed for the descriptor route), extraction, harness (memfd for descriptors). No axioms.",
+        "technique": "Coq proof (induction over records with fuel bounds) + differential correspondence of the extracted parser model against the C parser on both routes",
+        "design": "DESIGN.md section 7 C04",
+    },
+    "C05": {
+        "text": "Coq theorems: the CRC table regenerated from crc32.c is the reflected CRC-32 table; table-driven update = bit-serial CRC; split independence; chunked whole-file checksum = CRC of the file with bytes 6..9 zeroed for every length; acceptance implies stored = CRC; any alteration confined to <= 4 consecutive bytes (after or inside the field) and any one-bit alteration is rejected as SB_ECORRUPTED on both routes for every file length; two-bit alterations within 2^22 bit positions of each other are rejected (orbit sweep inside the kernel; bound stated). Tied to the code by the regenerated table and by differential runs (all single-bit flips, sampled double flips, all 1..4-byte windows).",
+        "note": "Trusted: Coq kernel (vm_compute for the 256-entry table and the 2^22-step orbit sweep), gen_consts.py, hand-written model of the checksum loop and of parser_init, extraction, harness. Two-bit detection beyond 2^22 bits apart is not proved. No axioms.",
+        "technique": "Coq proof (GF(2) linearity + injectivity of the register step, reflection for table and orbit) + regenerated table + differential correspondence",
+        "design": "DESIGN.md section 7 C05",
+    },
 }
 NOT_YET = "check not built yet in this session (planned: Coq model + theorems + correspondence, see DESIGN.md section 7)"
 
